@@ -111,7 +111,7 @@ func genMux(seed uint64, n int, maxOps int, demux bool, emit func(interface{})) 
 		nops := r.rangeInt(3, maxOps)
 		var live []int // pids as addressed in the scenario (explicit or -k)
 		autoN := 0
-		explicit := []int{256, 257, 258, 4000, 32, 8189, 0x1000}
+		explicit := []int{256, 257, 258, 4000, 32, 8189, 0x1000, 0x1020, 0x1001}
 		churn := r.intn(4) == 0 // configuration-heavy history (version wrap)
 		bigOnce := s%4 == 0     // every fourth history carries payloads around the 16-bit PES_packet_length limit
 		bigLeft := 2
@@ -380,7 +380,15 @@ func genMuxSweep(r *rng, sc *muxScenario, demux bool) {
 		sc.Ops = append(sc.Ops, muxOp{Op: "tables"}, muxOp{Op: "data", PID: 0x0fff, Len: 200, Hdr: "pts", AF: "pcr"})
 		return
 	}
+	// an explicit stream sits right behind the PMT's PID while the automatic assignments walk past it
+	held := r.boolean()
+	if held {
+		sc.Ops = append(sc.Ops, muxOp{Op: "add", PID: 0x1001, ST: 27, DK: "none"}, muxOp{Op: "tables"}, muxOp{Op: "data", PID: 0x1001, Len: 300, Hdr: "pts", AF: "none"})
+	}
 	for i := 0; i < 3860; i++ {
+		if held && i == 3850 {
+			sc.Ops = append(sc.Ops, muxOp{Op: "data", PID: 0x1001, Len: 200, Hdr: "pts", AF: "none"}, muxOp{Op: "data", PID: 0x1001, Len: 100, Hdr: "pts", AF: "none"})
+		}
 		sc.Ops = append(sc.Ops, muxOp{Op: "add", PID: 0, ST: 27, DK: "none"})
 		n++
 		if i < 3836 {
